@@ -747,6 +747,20 @@ func (m *fsModel) checkDir(when string, justRotated bool) {
 			stamped = append(stamped, en.Name())
 		}
 	}
+	// nothing else appears in the directory: every entry is the active file, one of the
+	// sink's <base>-<timestamp><ext> files, a file the operator renamed away, or a decoy
+	isDecoy := map[string]bool{}
+	for _, d := range m.decoys {
+		isDecoy[d] = true
+	}
+	for _, en := range ents {
+		name := en.Name()
+		ok, _ := filepath.Match(m.pattern(), name)
+		if ok || name == activeName || name == m.sink.FileName || isDecoy[name] || strings.HasPrefix(name, "rotated-away-") {
+			continue
+		}
+		m.fail("rotated-name", "unexpected-file", "%s: the directory holds %q, which is neither the active file nor named %s-<timestamp>%s", when, name, m.base, m.ext)
+	}
 	// the active file's name
 	if m.sink.TimestampOnlyOnRotate || !m.rotEnabled {
 		if activeName != m.sink.FileName {
